@@ -445,6 +445,35 @@ func clientBody(kind int) func() string {
 			if err := st.FastCommit(1); err != nil {
 				return "ERR " + err.Error()
 			}
+		case 5:
+			// a map built in bulk from another map's enumeration (one digester per element, the colliding-key
+			// pair included), then a lookup of every key in the copy and a commit
+			src, err := atree.NewMap(st, DefaultAddr, atree.NewDefaultDigesterBuilder(), tu.NewSimpleTypeInfo(5))
+			if err != nil {
+				return "ERR " + err.Error()
+			}
+			keys := []atree.Value{tu.Uint64Value(1), ToAtree(KeyOfDefault(300)), ToAtree(KeyOfDefault(301)), tu.NewStringValue("k")}
+			for i, k := range keys {
+				if _, err := src.Set(CompareValue, GetHashInput, k, tu.Uint64Value(uint64(i))); err != nil {
+					return "ERR " + err.Error()
+				}
+			}
+			it, err := src.ReadOnlyIterator()
+			if err != nil {
+				return "ERR " + err.Error()
+			}
+			cp, err := atree.NewMapFromBatchData(st, DefaultAddr, atree.NewDefaultDigesterBuilder(), tu.NewSimpleTypeInfo(5), CompareValue, GetHashInput, src.Seed(),
+				func() (atree.Value, atree.Value, error) { return it.Next() })
+			if err != nil {
+				return "ERR " + err.Error()
+			}
+			for i, k := range keys {
+				v, err := cp.Get(CompareValue, GetHashInput, k)
+				fmt.Fprintf(&sb, "cp%d=%v,%v;", i, v, err != nil)
+			}
+			if err := st.FastCommit(1); err != nil {
+				return "ERR " + err.Error()
+			}
 		case 3:
 			// a client whose commit is itself parallel
 			a, err := atree.NewArray(st, DefaultAddr, tu.NewSimpleTypeInfo(2))
@@ -465,7 +494,7 @@ func clientBody(kind int) func() string {
 	}
 }
 
-var clientSets = [][]int{{0, 0}, {0, 1}, {1, 1}, {1, 2}, {2, 2}, {0, 2}, {0, 1, 2}, {1, 3}, {0, 3}, {2, 3}, {4, 4}, {4, 0}, {4, 2}, {4, 3}}
+var clientSets = [][]int{{0, 0}, {0, 1}, {1, 1}, {1, 2}, {2, 2}, {0, 2}, {0, 1, 2}, {1, 3}, {0, 3}, {2, 3}, {4, 4}, {4, 0}, {4, 2}, {4, 3}, {5, 5}, {5, 4}, {5, 1}}
 
 func clientsScenario(a schedArg) (func() string, string, error) {
 	set := clientSets[a.Variant%len(clientSets)]
